@@ -274,6 +274,12 @@ def _compare(m, r, tags, rec, where):
             bad("isometrize(x)", got.tolist(), (M @ x).tolist())
 
 
+def _opt_outside_documented_domain(r):
+    """An optional argument sits outside the bounds the class documents (possible only after the user widened them)."""
+    dflt = ref.default_opt_bounds(r.cls, r.dim)
+    return any(k in dflt and not ref.in_bounds(v, dflt[k]) for k, v in r.opt.items())
+
+
 def _apply_real(m, op):
     k = op["op"]
     v = op.get("v")
@@ -386,8 +392,25 @@ def check_history(case, rec):
             except ValueError as e:
                 raised = e
             except Exception as e:  # noqa: BLE001
+                try:
+                    _apply_ref(r, op)
+                    outside = _opt_outside_documented_domain(r)
+                except ArithmeticError:
+                    outside = True
+                if outside:
+                    # the user widened the bounds of an optional argument beyond the documented ones and a value out there
+                    # (assigned, or the reset value of the new bounds) breaks the arithmetic: outside the model's domain
+                    rec.exclude("opt_arg_outside_documented_domain")
+                    rec.nontrivial(_nontrivial({"ops": case["ops"][: i + 1]}))
+                    return
                 raise Violation(f"{where}: raised {type(e).__name__}: {e}", dict(otags, kind="exception"))
-            res, why = _apply_ref(r, op)
+            try:
+                res, why = _apply_ref(r, op)
+            except ArithmeticError:
+                # the reference model's own arithmetic breaks down: only possible for optional arguments far outside the documented bounds
+                rec.exclude("opt_arg_outside_documented_domain")
+                rec.nontrivial(_nontrivial({"ops": case["ops"][: i + 1]}))
+                return
             rec.label("accepted" if res == "ok" else "rejected")
             if res == "reject" and op["op"] == "bounds2":
                 # bounds that cannot be satisfied together: no documented semantics for the half-applied call
@@ -487,6 +510,10 @@ def _do_integral_scale(m, r, op, tags, rec, where):
     except ValueError as e:
         raised = e
     except Exception as e:  # noqa: BLE001
+        if _opt_outside_documented_domain(r):
+            # an optional argument outside the documented bounds (the user widened them): outside the model's domain
+            rec.exclude("opt_arg_outside_documented_domain")
+            return True
         raise Violation(f"{where}: raised {type(e).__name__}: {e}", dict(tags, kind="exception"))
     nonlinear = r.cls in ref.TPL and r.opt.get("len_low", 0.0) > 0.0
     dflt = ref.RefModel(r.cls, dim=r.dim, latlon=r.latlon, temporal=r.temporal).bounds
